@@ -1,3 +1,4 @@
 //! One BMP connection end to end without sockets (properties C06, C07):
 //! the real `RouterHandler::read_from_router` over a caller-supplied reader.
 pub use crate::units::bmp_tcp_in::verif_stream::*;
+pub use crate::units::bmp_tcp_in::verif_bmp_read;
